@@ -14,14 +14,14 @@ def gen(rnd, depth):
         return ('lit', ''.join(rnd.choice('ab ,)}{$"\'\\:-+x') for _ in range(rnd.randint(0, 4))))
     if k < .6:
         op = rnd.choice([None, '-', ':-', '+', ':+'])
-        return ('var', rnd.choice(['set', 'null', 'unset', 'A_1']), op, gen(rnd, depth - 1) if op else None)
+        return ('var', rnd.choice(['set', 'null', 'unset', 'A_1', 'V', 'V2', 'X86_64']), op, gen(rnd, depth - 1) if op else None)
     if k < .8:
         f = rnd.choice(['eq', 'ne', 'not', 'or', 'and', 'if-then-else', 'strip', 'subst'])
         n = {'eq': 2, 'ne': 2, 'not': 1, 'if-then-else': 3, 'strip': 1, 'subst': 3}.get(f) or rnd.randint(1, 3)
         return ('fun', f, [gen(rnd, depth - 1) for _ in range(n)])
     return ('cat', [gen(rnd, depth - 1) for _ in range(rnd.randint(2, 3))])
 
-ENV = {'set': 'val', 'null': '', 'A_1': 'x y'}
+ENV = {'set': 'val', 'null': '', 'A_1': 'x y', 'V': 'a', 'V2': 'b', 'X86_64': '1'}
 
 class Fail(Exception): pass      # documented error (unset variable with nounset)
 
@@ -74,11 +74,13 @@ def render(rnd, t, stop=''):
     k = t[0]
     if k == 'lit': return render_lit(rnd, t[1], stop)
     if k == 'cat':
-        parts = []
-        for x in t[1]:
-            r = render(rnd, x, stop)
-            # a bare $name must not swallow following name characters
-            parts.append(r)
+        parts = [render(rnd, x, stop) for x in t[1]]
+        # braces may be omitted if the name consists of letters, numbers and '_': use the bare form where the following
+        # text cannot be taken for a part of the name
+        for i, x in enumerate(t[1]):
+            if x[0] == 'var' and x[2] is None and rnd.random() < .5:
+                nxt = ''.join(parts[i + 1:])[:1]
+                if nxt == '' or not (nxt.isalnum() or nxt == '_'): parts[i] = '$' + x[1]
         return ''.join(parts)
     if k == 'var':
         _, name, op, sub = t
@@ -98,6 +100,7 @@ def real_subst(text):
 def check_tree(rnd, t):
     from bob.errors import ParseError
     text = render(rnd, t)
+    if t[0] == 'var' and t[2] is None and rnd.random() < .5: text = '$' + t[1]      # a lone variable: bare form
     try: exp = ('val', value(t))
     except Fail: exp = ('err',)
     try: got = ('val', real_subst(text))
